@@ -143,7 +143,7 @@ func rmain() (code int) {
 	extra := map[string]any{}
 	if "thorough" == *tier {
 		thorough(*prop, abs, p, r, extra)
-	} else {
+	} else if "" == os.Getenv("CRS_NOSELFTEST") {
 		quickSelfTest(*prop, abs, extra)
 	}
 	return r.Finish(*tier, seed, start, *evidence, *known, d.Explanation, d.Assumptions, extra)
